@@ -129,6 +129,9 @@ type c05Case struct {
 	AfterSample bool `json:"after_sample,omitempty"`
 	// Procs (codonalign): GOMAXPROCS during the call (0 = unchanged)
 	Procs int `json:"procs,omitempty"`
+	// NtOrder (codonalign): the nucleotide sequences are handed over in this order of rows (nil: the order of
+	// the protein alignment); the result is in the order of the protein alignment whatever the order is
+	NtOrder []int `json:"nt_order,omitempty"`
 }
 
 const c05CodonAlpha = "ACGTURYSWKMBDHVNacgturyswkmbdhvn-.*?XxZ1 \xe9"
@@ -279,6 +282,14 @@ func c05Tasks(tier string) []mc.Task {
 			}})
 		}
 	}
+	// (iii') the nucleotide sequences in another order than the rows of the protein alignment: 3 rows, every order
+	ts = append(ts, mc.Task{Name: "codonalign#row-orders", Run: func(c *mc.Ctx) {
+		nts := []string{"ATGAAACCC", "ATGCCCAAATT", "TTGGGGAAAC"}
+		pr := []string{"MK-P", "MPK-", "LG-K"}
+		perms(3, func(p []int) {
+			c05Check(c, c05Case{Kind: "codonalign", Seqs: nts, Prot: pr, Code: align.GENETIC_CODE_STANDARD, NtOrder: append([]int{}, p...)})
+		})
+	}})
 	// (iv) TranslateByReference: all 2-row alignments L<=maxR over {A,C,G,-}, frames 0..2, each row as reference
 	maxR := 5
 	if tier == "thorough" {
@@ -622,7 +633,15 @@ func c05Named(seqs []string) rows {
 
 func c05CodonAlign(c *mc.Ctx, cs c05Case, viol func(string, string)) {
 	prot, e1 := mkAlign(align.AMINOACIDS, c05Named(cs.Prot))
-	nt, e2 := mkSeqBag(align.NUCLEOTIDS, c05Named(cs.Seqs))
+	ntRows := c05Named(cs.Seqs)
+	if cs.NtOrder != nil {
+		perm := make(rows, len(ntRows))
+		for i, k := range cs.NtOrder {
+			perm[i] = ntRows[k]
+		}
+		ntRows = perm
+	}
+	nt, e2 := mkSeqBag(align.NUCLEOTIDS, ntRows)
 	if e1 != nil || e2 != nil {
 		c.Fatal("cannot build codonalign input %v: %v %v", cs, e1, e2)
 		return
